@@ -658,7 +658,7 @@ func scenParSigDB(r *run, ctx context.Context, wg *sync.WaitGroup) {
 	// all shares sign the same message: the threshold must have been reached exactly when the
 	// second one was stored, from the ORIGINAL first partial
 	if triggers == 0 {
-		r.violate("mutation-visible", r.sig("thresh-sub", "trigger-missing-after-"+r.mutator()+"s-mutation", "core.ParSignedData("+k.name+")"),
+		r.violate("mutation-visible", r.sig("thresh-sub", "trigger-missing-after-"+r.mutator()+"s-mutation", "core.ParSignedData<core."+k.name+">"),
 			"%d shares stored matching partials (threshold %d) but no threshold subscriber was called after %d in-place overwrite(s) by the %s: the stored partials no longer match", stored, threshold, r.nmut, r.mutator())
 		return
 	}
@@ -667,7 +667,7 @@ func scenParSigDB(r *run, ctx context.Context, wg *sync.WaitGroup) {
 		set := mkSet(sh)
 		r.hand("second-writer", set)
 		if err := db.StoreExternal(ctx, duty, set); err != nil {
-			r.violate("mutation-visible", r.sig("store", "restore-rejected-after-"+r.mutator()+"s-mutation", "core.ParSignedData("+k.name+")"),
+			r.violate("mutation-visible", r.sig("store", "restore-rejected-after-"+r.mutator()+"s-mutation", "core.ParSignedData<core."+k.name+">"),
 				"storing again a fresh partial identical to the original of share %d was rejected (%s) after %d in-place overwrite(s) by the %s: the stored partial has changed", sh, firstLine(err.Error()), r.nmut, r.mutator())
 			break
 		}
@@ -847,7 +847,9 @@ func (b *beacon) Spec(context.Context, *eth2api.SpecOpts) (*eth2api.Response[map
 	}}, nil
 }
 
-func (b *beacon) attData(slot, comm uint64) *eth2p0.AttestationData { return mkAttData(slot, comm, b.seed) }
+func (b *beacon) attData(slot, comm uint64) *eth2p0.AttestationData {
+	return mkAttData(slot, comm, b.seed)
+}
 
 func (b *beacon) AttestationData(_ context.Context, o *eth2api.AttestationDataOpts) (*eth2api.Response[*eth2p0.AttestationData], error) {
 	verifrt.Yield()
@@ -927,16 +929,20 @@ func scenFetcher(r *run, ctx context.Context, wg *sync.WaitGroup) {
 		}
 		return nil, fmt.Errorf("c18 stub: no aggregate for %v", d)
 	})
-	f.RegisterAwaitAttData(func(_ context.Context, s, c uint64) (*eth2p0.AttestationData, error) { return mkAttData(s, 0, bn.seed), nil })
+	f.RegisterAwaitAttData(func(_ context.Context, s, c uint64) (*eth2p0.AttestationData, error) {
+		return mkAttData(s, 0, bn.seed), nil
+	})
 	f.RegisterSyncContributionV2(func(uint64) bool { return contribV2 })
 
 	var duty core.Duty
 	mkDefs := func() core.DutyDefinitionSet { return nil }
 	ref := core.UnsignedDataSet{}
 	comms := []uint64{1, 1 + uint64(verifrt.Intn("cfg", 2))} // second validator: same or another committee
+	early := false
 	switch verifrt.Intn("cfg", 4) {
 	case 0:
 		duty = core.NewAttesterDuty(slot)
+		early = verifrt.Intn("cfg", 2) == 1
 		mkDefs = func() core.DutyDefinitionSet {
 			s := core.DutyDefinitionSet{}
 			for i := 0; i < nv; i++ {
@@ -1011,6 +1017,17 @@ func scenFetcher(r *run, ctx context.Context, wg *sync.WaitGroup) {
 		pause("w", 3)
 		defs := mkDefs()
 		h := r.hand("fetch-caller", defs)
+		if early {
+			// early fetch on a head event: the set is cached and handed out by the later Fetch
+			ed := mkDefs()
+			r.hand("head-event-caller", ed)
+			if err := f.FetchOnly(ctx, duty, ed, "stub", bn.attData(slot, 0).BeaconBlockRoot); err != nil {
+				r.unexpected("fetch-only", err)
+				return
+			}
+			verifrt.Probe("fetcher-early-fetch-cached")
+			pause("w", 3)
+		}
 		verifrt.Note("caller fetches %s", simdata.Desc(duty))
 		if err := f.Fetch(ctx, duty, defs); err != nil {
 			r.unexpected("fetch", err)
@@ -1031,7 +1048,6 @@ func scenFetcher(r *run, ctx context.Context, wg *sync.WaitGroup) {
 	verifrt.Sleep(2 * time.Second)
 	r.finish()
 }
-
 
 // ---- scheduler ------------------------------------------------------------------------------------------
 
@@ -1174,7 +1190,9 @@ func scenValidatorAPI(r *run, ctx context.Context, wg *sync.WaitGroup) {
 	seed := uint64(1 + verifrt.Intn("cfg", 3))
 	bn := &beacon{seed: seed, nVals: nv}
 	comp := must(validatorapi.NewComponentInsecure(nil, bn, shareIdx))
-	comp.RegisterPubKeyByAttestation(func(_ context.Context, _, _, valIdx uint64) (core.PubKey, error) { return simdata.PubKey(int(valIdx)), nil })
+	comp.RegisterPubKeyByAttestation(func(_ context.Context, _, _, valIdx uint64) (core.PubKey, error) {
+		return simdata.PubKey(int(valIdx)), nil
+	})
 	var pks []core.PubKey
 	for i := 0; i < nv; i++ {
 		pks = append(pks, simdata.PubKey(i))
@@ -1200,7 +1218,9 @@ func scenValidatorAPI(r *run, ctx context.Context, wg *sync.WaitGroup) {
 			return as
 		}
 		mkOpts = func() any { return &eth2api.SubmitAttestationsOpts{Attestations: mkAtts()} }
-		submit = func(ctx context.Context, o any) error { return comp.SubmitAttestations(ctx, o.(*eth2api.SubmitAttestationsOpts)) }
+		submit = func(ctx context.Context, o any) error {
+			return comp.SubmitAttestations(ctx, o.(*eth2api.SubmitAttestationsOpts))
+		}
 		for i, a := range mkAtts() {
 			ref[pks[i]] = must(core.NewPartialVersionedAttestation(a, shareIdx))
 		}
@@ -1238,7 +1258,9 @@ func scenValidatorAPI(r *run, ctx context.Context, wg *sync.WaitGroup) {
 			return ms
 		}
 		mkOpts = func() any { return mkMsgs() }
-		submit = func(ctx context.Context, o any) error { return comp.SubmitSyncCommitteeMessages(ctx, o.([]*altair.SyncCommitteeMessage)) }
+		submit = func(ctx context.Context, o any) error {
+			return comp.SubmitSyncCommitteeMessages(ctx, o.([]*altair.SyncCommitteeMessage))
+		}
 		for i, m := range mkMsgs() {
 			ref[pks[i]] = core.NewPartialSignedSyncMessage(m, shareIdx)
 		}
@@ -1271,7 +1293,9 @@ func scenValidatorAPI(r *run, ctx context.Context, wg *sync.WaitGroup) {
 			return e
 		}
 		mkOpts = func() any { return mkExit() }
-		submit = func(ctx context.Context, o any) error { return comp.SubmitVoluntaryExit(ctx, o.(*eth2p0.SignedVoluntaryExit)) }
+		submit = func(ctx context.Context, o any) error {
+			return comp.SubmitVoluntaryExit(ctx, o.(*eth2p0.SignedVoluntaryExit))
+		}
 		ref[pks[0]] = core.NewPartialSignedVoluntaryExit(mkExit(), shareIdx)
 		cover(r.comp, "SignedVoluntaryExit")
 	}
